@@ -798,6 +798,14 @@ meth("str", "lstrip")(_strip_like(F_lstrip, "lstrip", True, False))
 meth("str", "rstrip")(_strip_like(F_rstrip, "rstrip", False, True))
 
 
+@meth("str", "splitlines")
+def _splitlines(I, recv, args, kw):
+    ex = I.ex
+    I.use("str.splitlines(keepends): a list of lines (uninterpreted; with keepends the non-empty lines concatenate to the text)")
+    lines = ex.fresh("lines", ("seq", "str"))
+    return HList(sym=lines)
+
+
 @meth("str", "isdigit", "isspace", "isalpha", "isalnum", "isidentifier")
 def _ispred(I, recv, args, kw):
     raise Unsupported("str predicate on symbolic string")
